@@ -87,8 +87,11 @@ def handle : Handler
       let E := env pub table
       let w0 : W :=
         { s := ({ reads := reads, writes := writes }, []), didLookup := 0, initDone := false, initErr := none, name := [],
-          verifiers := fun _ _ => (default, some "UnknownVerifierError"), tileHeight := h, nosumdb := nosumdb, record := [], tileCache := [],
+          verifiers := fun _ _ => (default, some "UnknownVerifierError"), tileHeight := 0, nosumdb := [], record := [], tileCache := [],
           latest := { N := 0, Hash := List.replicate 32 0 }, latestMsg := [], tileSaved := [] }
+      -- the harness calls SetTileHeight(h) when h > 0 and SetGONOSUMDB(list) when the list is not empty
+      let w0 := if h == 0 then w0 else match Client_SetTileHeight (h : Int) w0 with | .ok (_, w) => w | .error _ => w0
+      let w0 := if nosumdb.isEmpty then w0 else match Client_SetGONOSUMDB nosumdb w0 with | .ok (_, w) => w | .error _ => w0
       let total := (reads.map fun r => (r.2.2.getD []).length).sum
       let fuel := 4 * total + 4096
       let (res, w) := runLookups E fuel w0 looks []
